@@ -18,6 +18,9 @@ import (
 //	pair      one snapshot carrying two transfers (Src[0], Src[1])
 //	pledge    node pledge spending the 13439 XIN output of step Src[0] (consensus class)
 //	accept    node accept of the node pledged by step Src[0] (consensus class, new chain)
+//	mint      universal mint of the next batch (consensus class) on the elected chain, in the mint window of
+//	          day 1707+ after the epoch; the work/space aggregates the mint distribution reads are seeded
+//	          directly in the store (they are the output of the background aggregators, not of the workload)
 type Step struct {
 	Kind     string `json:"kind"`
 	Chain    int    `json:"chain"`               // hosting genesis chain (pledge: elected chain, accept: the new chain)
@@ -44,15 +47,19 @@ type Runner struct {
 	tsOf   map[int]uint64
 	plIdx  map[int]int // pledge step -> pledger number
 	npl    int
-	lastOp uint64 // timestamp of the latest node operation
-	host   int    // chain of the step whose marker write is being interleaved (-1: none)
+	lastOp uint64          // timestamp of the latest node operation
+	host   int             // chain of the step whose marker write is being interleaved (-1: none)
+	mints  int             // mint steps executed
+	workRd map[int]uint64  // chain -> next WriteRoundWork round
+	seeded map[uint64]bool // absolute day -> works seeded
 	Log    []string
 }
 
 func NewRunner(env *Env, node *kernel.Node, store *CrashStore, spec *Spec) *Runner {
 	return &Runner{env: env, node: node, store: store, spec: spec,
 		ts:   env.Epoch + day + hour + uint64(time.Minute),
-		txOf: map[int][]*common.VersionedTransaction{}, tsOf: map[int]uint64{}, plIdx: map[int]int{}, host: -1}
+		txOf: map[int][]*common.VersionedTransaction{}, tsOf: map[int]uint64{}, plIdx: map[int]int{}, host: -1,
+		workRd: map[int]uint64{}, seeded: map[uint64]bool{}}
 }
 
 func (r *Runner) logf(f string, a ...any) { r.Log = append(r.Log, fmt.Sprintf(f, a...)) }
@@ -151,6 +158,57 @@ func (r *Runner) accept(i, src int) (*common.VersionedTransaction, common.Addres
 	return ver, signer
 }
 
+// seedWorks writes what AggregateMintWork / AggregateRoundSpace would have aggregated for the day of ts
+// and the day before: lead and sign works for every chain and a space checkpoint of the mint batch.
+func (r *Runner) seedWorks(ts uint64) {
+	inner := r.store.Store
+	d := ts / day
+	for _, dd := range []uint64{d - 1, d} {
+		if r.seeded[dd] {
+			continue
+		}
+		r.seeded[dd] = true
+		for ci, id := range r.env.Chains {
+			var works []*common.SnapshotWork
+			for i := 0; i < 3+ci%3; i++ {
+				works = append(works, &common.SnapshotWork{
+					Hash:      crypto.Blake3Hash([]byte(fmt.Sprintf("c21-work-%d-%d-%d", ci, dd, i))),
+					Timestamp: dd*day + hour + uint64(i),
+					Signers:   r.env.Chains,
+				})
+			}
+			must(inner.WriteRoundWork(id, r.workRd[ci], works, true))
+			r.workRd[ci]++
+		}
+	}
+	for _, id := range r.env.Chains {
+		must(inner.WriteRoundSpaceAndState(&common.RoundSpace{NodeId: id, Batch: d - r.env.Epoch/day, Round: 0, Duration: 0}))
+	}
+}
+
+func (r *Runner) mint(i int) (*common.VersionedTransaction, int) {
+	t := r.env.Epoch + (1707+uint64(r.mints))*day + 8*hour + uint64(time.Minute)
+	for t <= r.ts {
+		t += day
+	}
+	r.ts = t
+	r.mints++
+	r.seedWorks(r.ts)
+	ver, err := r.node.VerifC21BuildMintTransaction(r.ts)
+	if err != nil || ver == nil {
+		r.logf("step %d: no mint transaction (%v)", i, err)
+		return nil, -1
+	}
+	el := r.node.VerifC21ElectSnapshotNode(common.TransactionTypeMint, r.ts)
+	priv := r.env.Privs[el]
+	if priv == nil {
+		r.logf("step %d: no key of elected node", i)
+		return nil, -1
+	}
+	must(ver.SignRaw(*priv))
+	return ver, r.env.ChainIndex(el)
+}
+
 // sign produces a real CoSi certificate for s from the first `threshold`
 // members of the chain's consensus key vector (the harness holds every key).
 func (r *Runner) sign(chain *kernel.Chain, s *common.Snapshot) bool {
@@ -222,6 +280,12 @@ func (r *Runner) runStep(i int) {
 		}
 		el := r.node.VerifC21ElectSnapshotNode(common.TransactionTypeNodePledge, r.ts)
 		chainIdx = r.env.ChainIndex(el)
+	case "mint":
+		t, ci := r.mint(i)
+		if t != nil {
+			txs = append(txs, t)
+		}
+		chainIdx = ci
 	case "accept":
 		pts := r.tsOf[st.Src[0]]
 		if want := pts + 12*hour + 2*uint64(time.Minute); r.ts < want {
